@@ -19,17 +19,17 @@ def run(ctx):
     if quick:
         plan = ("all:2,2,2:MC,MCFilterExact,MCSearch3:0;all:3,2,2:MC:0;"
                 "rand:4,4,3:20:MC,MCFilterExactPlus,MCSearch5,MCConj3:0;blocky:8:3:MCC2F:0;"
-                "sat:14:6:MCC2Fx0,MCC2Fx3,MCC2Fx6:0;rand:5,4,4:10:MCFilterGeom:0")
+                "sat:14:6:MCC2Fx0,MCC2Fx3,MCC2Fx6:0;rand:5,4,4:10:MCFilterGeom,MCFilterGeomHi:0;aligned:12:MCFilterGeom,MCFilterGeomHi:0")
         plan2 = ("ms:all:3,3:MS,MSFilterExact,MSSearch3,MSConj3:0;ms:rand:6,5:30:MS,MSFilterExactPlus,MSSearch5:0;"
-                 "ms:blocky:10:5:MSC2F:0;ms:sat:14:10:MSC2Fx0,MSC2Fx3,MSC2Fx6:0;ms:rand:7,6:30:MSFilterGeom:0;bitmap:all:3,3;bitmap:rand:4,4:300;bitmap:rand:7,6:40")
+                 "ms:blocky:10:5:MSC2F:0;ms:sat:14:10:MSC2Fx0,MSC2Fx3,MSC2Fx6:0;ms:rand:7,6:30:MSFilterGeom,MSFilterGeomHi:0;ms:aligned:14:MSFilterGeom,MSFilterGeomHi:0;bitmap:all:3,3;bitmap:rand:4,4:300;bitmap:rand:7,6:40")
     else:
         plan = ("all:2,2,2:MC,MCFilterTrue,MCFilterExact,MCSearch3,MCSearch5,MCInterior4,MCConj3:0;"
                 "all:3,2,2:MC,MCFilterExact,MCSearch3:0;"
                 "rand:4,4,3:300:MC,MCFilterExactPlus,MCSearch5,MCConj3:0;rand:6,6,6:40:MC,MCFilterExactPlus:0;"
-                "blocky:8:20:MCC2F,MC:0;sat:14:40:MCC2Fx0,MCC2Fx3,MCC2Fx6:0;rand:7,6,5:60:MCFilterGeom:0")
+                "blocky:8:20:MCC2F,MC:0;sat:14:40:MCC2Fx0,MCC2Fx3,MCC2Fx6:0;rand:7,6,5:60:MCFilterGeom,MCFilterGeomHi:0;aligned:12:MCFilterGeom,MCFilterGeomHi:0;aligned:14:MCFilterGeom,MCFilterGeomHi:0")
         plan2 = ("ms:all:3,3:MS,MSFilterTrue,MSFilterExact,MSSearch3,MSSearch5,MSSearchFilter3,MSConj3:0;"
                  "ms:all:4,3:MS,MSSearch3:0;ms:rand:8,7:300:MS,MSFilterExactPlus,MSSearch5:0;"
-                 "ms:blocky:12:30:MSC2F,MS:0;ms:sat:14:80:MSC2Fx0,MSC2Fx3,MSC2Fx6:0;ms:rand:9,8:200:MSFilterGeom:0;"
+                 "ms:blocky:12:30:MSC2F,MS:0;ms:sat:14:80:MSC2Fx0,MSC2Fx3,MSC2Fx6:0;ms:rand:9,8:200:MSFilterGeom,MSFilterGeomHi:0;ms:aligned:14:MSFilterGeom,MSFilterGeomHi:0;ms:aligned:13:MSFilterGeom,MSFilterGeomHi:0;ms:aligned:11:MSFilterGeom,MSFilterGeomHi:0;"
                  "ms:all:4,3:MSFilterGeom:0;bitmap:all:4,4;bitmap:rand:8,8:300")
     lattice.lattice_stage(ctx, "mc3", plan, clauses)
     lattice.lattice_stage(ctx, "ms2", plan2, {"panic", "snap", "manifold", "winding"}, cmd="c01-mesh2",
